@@ -95,7 +95,7 @@ func nativeJWT(name string, wellFormed bool, nonceKind int, nonce string, aud []
 	if err != nil {
 		panic(err)
 	}
-	return string(signed)
+	return vn.Secret(string(signed), 16)
 }
 
 func init() {
